@@ -12,4 +12,68 @@ func init() {
 			return GenDiff(r, prop, tier)
 		}
 	}
+	// C18 (operator contract) and C19 (well-formed results) are oracles applied to every query
+	// of every scenario; their checks run a mixture of the other properties' workloads.
+	generators["C18"] = func(t *testing.T, r *rand.Rand, prop, tier string, pg *atomic.Int64) *Case {
+		var c *Case
+		switch k := r.Intn(20); {
+		case k < 10:
+			c = GenDiff(r, []string{"C01", "C04", "C05", "C06", "C03", "C02"}[r.Intn(6)], tier)
+			c.Ops[0].WrapMode = r.Intn(4)
+		case k < 14:
+			c = GenDist(t, r, prop, tier, pg)
+			c.Ops[0].WrapMode = r.Intn(4)
+		case k < 16:
+			c = GenRVI(t, r, prop, tier, pg)
+		case k < 18:
+			c = GenConfig(t, r, prop, tier, pg)
+		default:
+			c = GenFault(t, r, "C14", tier, pg)
+		}
+		if c != nil {
+			c.Prop = prop
+		}
+		return c
+	}
+	generators["C19"] = func(t *testing.T, r *rand.Rand, prop, tier string, pg *atomic.Int64) *Case {
+		var c *Case
+		switch k := r.Intn(20); {
+		case k < 9:
+			c = GenDiff(r, "C19", tier) // profile "extreme": values outside the comparison-safe domain
+		case k < 13:
+			c = GenDiff(r, []string{"C05", "C04", "C06", "C02"}[r.Intn(4)], tier)
+		case k < 16:
+			c = GenDist(t, r, prop, tier, pg)
+		case k < 18:
+			c = GenOptim(t, r, prop, tier, pg)
+		default:
+			c = GenHistory(t, r, prop, tier, pg)
+		}
+		if c != nil {
+			c.Prop = prop
+		}
+		return c
+	}
+	base17 := GenFault
+	generators["C17"] = func(t *testing.T, r *rand.Rand, prop, tier string, pg *atomic.Int64) *Case {
+		var c *Case
+		switch k := r.Intn(20); {
+		case k < 13:
+			c = base17(t, r, prop, tier, pg)
+		case k < 17:
+			c = GenHistory(t, r, prop, tier, pg)
+			if c != nil {
+				c.Store.SharedLabels = true
+			}
+		default:
+			c = GenDist(t, r, prop, tier, pg)
+			if c != nil {
+				c.Store.SharedLabels = true
+			}
+		}
+		if c != nil {
+			c.Prop = prop
+		}
+		return c
+	}
 }
